@@ -25,6 +25,7 @@ type SpecEnv struct {
 	resNames []string
 	qn      int
 	atEnd   bool
+	inOld   bool
 }
 
 type specErr struct{ msg string }
@@ -257,6 +258,12 @@ func (e *SpecEnv) evalIdent(name string) Val {
 			return e.results[i]
 		}
 	}
+	if e.f != nil && e.inOld {
+		// old(x): the value of parameter x at entry
+		if v, ok := e.f.lookupLocal(name, nil, e.st); ok {
+			return v
+		}
+	}
 	if e.f != nil {
 		if e.atEnd && e.block != nil {
 			if v, ok := e.f.lookupAtEnd(name, e.block, e.st); ok {
@@ -352,12 +359,11 @@ func (e *SpecEnv) evalBinary(x *SBinary) Val {
 		a = e.coerce(a, b.T)
 	} else if isUntyped(b.T) && !isUntyped(a.T) {
 		if x.Op == "<<" || x.Op == ">>" {
-			b = e.coerce(b, types.Typ[types.Uint])
 			if c.mode == ModeBV {
-				b = e.coerce(Val{T: untypedInt, S: b.S}, a.T)
-				if n, ok := parseBig(e.eval(x.Y).S); ok {
-					b = e.constVal(n, a.T)
-				}
+				// shift count of the operand's own width (the operator translation expects equal widths)
+				b = e.coerce(b, a.T)
+			} else {
+				b = e.coerce(b, types.Typ[types.Uint])
 			}
 		} else {
 			b = e.coerce(b, a.T)
@@ -735,7 +741,7 @@ func (e *SpecEnv) evalCall(x *SCall) Val {
 	return Val{}
 }
 
-func (e *SpecEnv) oldMode() {}
+func (e *SpecEnv) oldMode() { e.inOld = true }
 
 func (e *SpecEnv) convert(a Val, t types.Type) Val {
 	c := e.c
@@ -795,7 +801,16 @@ func (c *FuncCtx) declareSpecFn(e *SpecEnv, sf *SpecFn) {
 	}
 	rs := c.so.sortOf(e.lookupType(sf.Ret))
 	name := "sf_" + sf.Name
-	if sf.Body == nil {
+	opaque := false
+	if sf.Body != nil && c.mode == ModeInt && strings.ContainsAny(sf.Body.String(), "^&|") && !strings.Contains(sf.Body.String(), "&&") && !strings.Contains(sf.Body.String(), "||") {
+		opaque = true
+	} else if sf.Body != nil && c.mode == ModeInt && (strings.Contains(sf.Body.String(), " ^ ") || strings.Contains(sf.Body.String(), " << ") || strings.Contains(sf.Body.String(), " & ")) {
+		opaque = true
+	}
+	if opaque {
+		c.assume("spec function " + sf.Name + " is defined with bit operations; in mode int it is used as an uninterpreted function (its definition is only unfolded in mode bv proofs)")
+	}
+	if sf.Body == nil || opaque {
 		c.addDef(Def{Sym: name, Text: fmt.Sprintf("(declare-fun %s (%s) %s)", name, strings.Join(sorts, " "), rs)})
 		// attach axioms mentioning it lazily: all axioms are added once per ctx
 		c.addSpecAxioms(e)
@@ -809,6 +824,17 @@ func (c *FuncCtx) declareSpecFn(e *SpecEnv, sf *SpecFn) {
 	}
 	body := ne.eval(sf.Body)
 	body = ne.coerce(body, e.lookupType(sf.Ret))
+	if sf.Opaque && len(ps) > 0 {
+		var pnames []string
+		for _, p := range sf.Params {
+			pnames = append(pnames, p.Name+"!p")
+		}
+		app := fmt.Sprintf("(%s %s)", name, strings.Join(pnames, " "))
+		c.addDef(Def{Sym: name, Text: fmt.Sprintf("(declare-fun %s (%s) %s)", name, strings.Join(sorts, " "), rs)})
+		c.axiom(fmt.Sprintf("(forall (%s) (! (= %s %s) :pattern (%s)))", strings.Join(ps, " "), app, c.termOf(body), app), name)
+		c.addSpecAxioms(e)
+		return
+	}
 	c.addDef(Def{Sym: name, Text: fmt.Sprintf("(%s %s (%s) %s %s)", kw, name, strings.Join(ps, " "), rs, c.termOf(body))})
 	c.addSpecAxioms(e)
 }
@@ -884,6 +910,9 @@ func (e *SpecEnv) callPure(fn *ssa.Function, args []Val) Val {
 		t = rt.At(0).Type()
 	}
 	name := fullName(fn)
+	if con := c.eng.contractFor(fn); con != nil && con.Pure {
+		return c.pureApp(fn, args, t)
+	}
 	if h, ok := builtinModels[name]; ok && h.pure != nil {
 		return h.pure(e, args, t)
 	}
